@@ -29,6 +29,17 @@ impl C13 {
         if let Some(o) = lib(ctx, "map_arrow_witness", "pending", &input, || map_arrow_witness(&fun, &lx)) {
             ctx.check(o.is_none(), "map_arrow_witness/refuses-pending-unifications/value/pending", || json!({"input": input(), "observed": "Some"}));
         }
+        // relabelling hyperedges (or nodes) does not settle anything: the relabelled diagram is still refused
+        {
+            let rel = lx.clone().map_edges(|a| a + 1).map_nodes(|o| o);
+            if !rel.hypergraph.quotient.0.is_empty() || true {
+                let fun2 = LaxSpec(spec.clone());
+                if let Some(o) = lib(ctx, "try_define_map_arrow", "pending_relabelled", &input, || try_define_map_arrow(&fun2, &rel)) {
+                    ctx.count("law:refused-after-relabelling");
+                    ctx.check(o.is_none(), "try_define_map_arrow/refuses-pending-unifications/value/pending_relabelled", || json!({"input": input(), "observed": "Some"}));
+                }
+            }
+        }
         // a failed attempt to quotient (label-conflicting pairs) leaves the pairs pending: still refused afterwards
         if pl.q.iter().any(|&(a, b)| pl.w[a] != pl.w[b]) {
             let mut after = lx.clone();
@@ -235,6 +246,7 @@ impl Monitor for C13 {
             ("law:native-identity-functor", 200),
             ("class:refusal_with_label_conflicting_pairs", 30),
             ("law:refused-after-a-failed-quotient", 30),
+            ("law:refused-after-relabelling", 100),
             ("events:witness_segments_checked", 500),
         ]
     }
